@@ -143,6 +143,26 @@ func pairKnown(x ref.Schema, g spec.TypeSpec) bool {
 	return false
 }
 
+// mustReject: the pairs the property names as mismatched ("wrong kind, wrong fixed
+// size, unsupported integer widths"): building a decoder for them has to fail.
+func mustReject(x ref.Schema, g spec.TypeSpec) string {
+	switch x.Kind {
+	case "fixed":
+		if g.K == "barray" && g.N != x.Size {
+			return "wrong fixed size"
+		}
+		if g.K == "array" {
+			return "fixed data into an array whose elements are not bytes"
+		}
+	case "int", "long":
+		switch g.K {
+		case "int8", "uint8", "uint16", "uint32", "uint64", "uint", "uintptr":
+			return "unsupported integer width"
+		}
+	}
+	return ""
+}
+
 const canaryByte = 0xA5
 
 func runC05InWorker(c c05Case) (c05Result, error) {
@@ -160,6 +180,9 @@ func runC05InWorker(c c05Case) (c05Result, error) {
 		return res, nil
 	}
 	res.Built = true
+	if why := mustReject(c.X, c.G); why != "" {
+		return res, fmt.Errorf("a decoder was built for %s into %s (%s): %s must be rejected when the decoder is built", ref.Render(c.X, nil), c.G.GoString(), c.Pos, why)
+	}
 	guard := reflect.ArrayOf(64, reflect.TypeOf(byte(0)))
 	wrapType := reflect.StructOf([]reflect.StructField{
 		{Name: "G0", Type: guard}, {Name: "S", Type: cellType}, {Name: "G1", Type: guard},
@@ -367,9 +390,13 @@ func c05GoTypes() []spec.TypeSpec {
 		out = append(out, spec.BArray(n))
 	}
 	i64, i16, str := spec.T("int64"), spec.T("int16"), spec.T("string")
+	boolT, u64, pi64 := spec.T("bool"), spec.T("uint64"), spec.Ptr(spec.T("int64"))
 	out = append(out,
 		spec.Slice(i64), spec.Slice(i16), spec.Slice(str),
 		spec.TypeSpec{K: "array", N: 2, Elem: &i64},
+		// arrays of the byte size of a fixed schema in the list whose elements are not bytes
+		spec.TypeSpec{K: "array", N: 4, Elem: &boolT}, spec.TypeSpec{K: "array", N: 2, Elem: &pi64}, spec.TypeSpec{K: "array", N: 1, Elem: &str},
+		spec.TypeSpec{K: "array", N: 2, Elem: &u64}, spec.TypeSpec{K: "array", N: 8, Elem: &i16},
 		spec.Map(i64), spec.Map(i16),
 		spec.TypeSpec{K: "mapk", Key: "int", Elem: &i64},
 		spec.Struct(spec.FieldSpec{Go: "A", T: i64}),
